@@ -20,7 +20,7 @@ def check(pid, **kw):
 
 RULE_LOCAL = ("strings are enumerated once each by the L1 odometer (all token strings up to the bound over the class alphabet); "
               "a string counts as non-trivial when it has >= 2 bytes and the reference automaton is still alive before its last byte "
-              "(L2/L3/sweep strings, the scalar-surrounding product, the 'huge' lengths 2^8..2^32, the alignment sweep and the deep six-class strings of <= 10 (12) tokens are evaluated too but not counted here, they may repeat L1 strings)")
+              "(L2/L3/sweep strings, the scalar-surrounding product, the 'huge' lengths 2^8..2^32, the alignment sweep and the deep six-class strings of <= 10 (12) tokens are evaluated too but not counted here, they may repeat L1 strings; further steps repeat the automaton product after setlocale() to C.UTF-8 and to a single-byte locale compiled on the spot)")
 
 check('C02', level='model_checking', steps=[dict(src='drv/local.c', variant='plain', defs=[], name='local-ascii'),
                                              # the same automaton product after setlocale(): a scanner that classifies bytes with the locale's <ctype.h> tables changes its language
